@@ -721,6 +721,10 @@ func (multi *MultiEpoch) StreamTransactions(params *old_faithful_grpc.StreamTran
 	if params.EndSlot != nil {
 		endSlot = *params.EndSlot
 	}
+	if endSlot < startSlot {
+		// also covers start_slot + maxSlotsToStream overflowing uint64
+		return status.Errorf(codes.InvalidArgument, "end slot %d is before start slot %d", endSlot, startSlot)
+	}
 	gsfaReader, epochNums := multi.getGsfaReadersInEpochDescendingOrderForSlotRange(ctx, startSlot, endSlot)
 
 	gsfaReadersLoaded := true
